@@ -83,6 +83,7 @@ def harness(args, timeout=1800, stdin_data=None):
         errlog.close()
     if r.returncode != 0:
         raise ToolError("harness failed (%d): %r\n%s" % (r.returncode, args, r.stdout[-2000:]))
+    # the code under test prints to the same stdout; the summary is the last line
     lines = r.stdout.decode("utf-8", "replace").strip().splitlines()
     return json.loads(lines[-1]) if lines else {}
 
@@ -123,15 +124,37 @@ def parse_counts(out):
 
 
 def parse_tuples(out):
-    """All PrintT'ed tuples whose first element is an upper-case tag -> list of (tag, raw body)."""
-    return [(m.group(1), m.group(2)) for m in _RE_TUPLE.finditer(out)]
+    """All PrintT'ed tuples whose first element is an upper-case tag -> list of (tag, raw body).
+
+    Bodies may contain nested << >> and { }, so brackets are matched, not regex-guessed."""
+    res = []
+    for m in re.finditer(r'<<\s*"([A-Z-]+)",', out):
+        i = m.end()
+        depth = 1
+        while i < len(out) and depth > 0:
+            if out.startswith("<<", i):
+                depth += 1
+                i += 2
+            elif out.startswith(">>", i):
+                depth -= 1
+                i += 2
+            else:
+                i += 1
+        res.append((m.group(1), out[m.end():i - 2]))
+    return res
 
 
 def parse_int_set(body):
-    m = re.search(r"\{([^}]*)\}", body, re.S)
-    if not m:
-        return set()
-    return set(int(x) for x in re.findall(r"-?\d+", m.group(1)))
+    """Indices in a printed set: either {1, 2} or {<<1, "why">>, ...}. Returns {index: reason}."""
+    i = body.find("{")
+    j = body.rfind("}")
+    if i < 0 or j < 0:
+        return {}
+    inner = body[i + 1:j]
+    pairs = re.findall(r'<<\s*(\d+),\s*"([^"]*)"\s*>>', inner)
+    if pairs:
+        return {int(a): b for a, b in pairs}
+    return {int(x): "" for x in re.findall(r"-?\d+", inner)}
 
 
 def tlc_failed(out):
@@ -149,7 +172,7 @@ def tlc_trace(spec, trace, tag=None, timeout=1500, env_extra=None):
     env = {"TRACE": trace}
     env.update(env_extra or {})
     rc, out, wall = _tlc(spec + ".tla", spec + ".cfg", os.path.join(WORK, "tlc_" + tag), env, 1, timeout)
-    res = {"trace": trace, "wall": wall, "output": out, "bad": set(), "nrec": None, "consumed": None}
+    res = {"trace": trace, "wall": wall, "output": out, "bad": {}, "nrec": None, "consumed": None}
     res["generated"], res["distinct"] = parse_counts(out)
     for t, body in parse_tuples(out):
         if t == "TRACE-BAD":
